@@ -20,6 +20,10 @@ def judge_solves(r, tree=False):
             continue
         if s.get("skipped"):
             continue
+        if s.get("transposed"):
+            bad.append(("omega-iterative-transposed", {"solve": k, "what": "omega + iterative solver: (e, c) is a Rayleigh pair of the transpose of the masked two-layer operator, not of the operator",
+                                                       "e": s.get("e"), "ray_local_err": s.get("ray_local_err"), "ray_dense_err": s.get("ray_dense_err"), "cidx": s.get("cidx")}))
+            continue
         if not tree:
             if s.get("ray_local_err", 0.0) > TOL_WIT:
                 bad.append(("witness-rayleigh", {"solve": k, "what": "e != <c|H_eff|c>/<c|c> (H_eff contracted independently, mask applied)", "rec": s}))
@@ -136,6 +140,9 @@ def judge_chain(case, r):
                         abs(f["expectation_H"] - last[j]) > TOL_EXACT * _scale(last[j]):
                     bad.append(("returned-state", {"root": j, "what": "mps.expectation(mpo) of the returned state differs from the reported energy at full bond dimension",
                                                    "expectation": f["expectation_H"], "reported": last[j]}))
+    if any(s.get("transposed") for s in r.get("solves", [])):
+        # the state written back is the conjugate of the minimiser: its consequences belong to the same finding
+        bad = [(("omega-iterative-transposed", d) if k in ("returned-state", "full-bond-exactness") else (k, d)) for k, d in bad]
     return bad
 
 
